@@ -834,15 +834,22 @@ class HexaryTrie:
         scratch_db = ScratchDB(self.db)
         with scratch_db.batch_commit(do_deletes=self.is_pruning):
             Trie = type(self)
+            if self.is_pruning:
+                # The batch works on a copy of the reference counts, so that a batch
+                # which is abandoned by an exception leaves the counts untouched.
+                batch_ref_count = self._ref_count.copy()
+            else:
+                batch_ref_count = None
             memory_trie = Trie(
-                scratch_db, self.root_hash, prune=True, ref_count=self._ref_count
+                scratch_db, self.root_hash, prune=True, ref_count=batch_ref_count
             )
             yield memory_trie
 
         if self.is_pruning:
-            # The batch trie shares this trie's reference counts, so it has already
-            # stored and counted the new root node. Saving it again here would
+            # The batch trie started from this trie's reference counts, so it has
+            # already stored and counted the new root node. Saving it again here would
             # count it twice, and it could never be pruned.
+            self._ref_count = memory_trie._ref_count
             self.root_hash = memory_trie.root_hash
         elif self.root_hash != memory_trie.root_hash:
             try:
